@@ -205,9 +205,54 @@ func (e *Exec) checkTransitions(st *State, li *loopInfo, ctx *Ctx) {
 	}
 }
 
+// pushErrBase / popErrBase bracket a loop: the calls recorded at the loop head are the base against which an iteration's
+// new calls are compared.
+func pushErrBase(st *State) {
+	base := map[string]string{}
+	for k, v := range st.callErrs {
+		base[k] = v
+	}
+	st.errBases = append(st.errBases, base)
+}
+
+func popErrBase(st *State) {
+	if n := len(st.errBases); n > 0 {
+		st.errBases = st.errBases[:n-1]
+	}
+}
+
+// checkIterationErrors: `propagates`: a call that failed during this iteration must have ended the function; an
+// iteration that completes (falls through or continues) after a failed call has dropped the error.
+func (e *Exec) checkIterationErrors(st *State, li *loopInfo, ctx *Ctx) {
+	c := e.fi.Contract
+	if c == nil || len(c.Propagates) == 0 || ctx.frame.fi != e.fi || len(st.errBases) == 0 {
+		return
+	}
+	base := st.errBases[len(st.errBases)-1]
+	all := len(c.Propagates) == 1 && c.Propagates[0] == "all"
+	var sites []string
+	for k := range st.callErrs {
+		sites = append(sites, k)
+	}
+	sort.Strings(sites)
+	for _, k := range sites {
+		et := st.callErrs[k]
+		if base[k] == et {
+			continue
+		}
+		site := strings.TrimSuffix(strings.TrimPrefix(k, "call["), "]")
+		if !all && !contains(c.Propagates, site) {
+			continue
+		}
+		e.emit(st, "post", fmt.Sprintf("loop[%s].propagates[%s]", li.key, site), "(not (isErr "+et+"))", c.PropagatesTags, li.pos,
+			"an iteration completes only if "+site+" succeeded (its failure must end "+e.fi.Name+")")
+	}
+}
+
 func (e *Exec) checkInvs(st *State, li *loopInfo, phase string, ctx *Ctx) {
 	if phase == "step" {
 		e.checkTransitions(st, li, ctx)
+		e.checkIterationErrors(st, li, ctx)
 	}
 	for i, inv := range li.spec.Invariants {
 		goal := e.clause(inv.X, st, nil, li.pos+1, e.info(ctx), clauseInv)
@@ -360,6 +405,7 @@ func (e *Exec) execRange(s *ast.RangeStmt, label string, st *State, ctx *Ctx, k 
 
 	// 2. arbitrary iteration: havoc, assume invariants
 	head := st.clone()
+	pushErrBase(head)
 	e.havoc(head, vars, fields)
 	if coll != "" {
 		e.setGhost(head, li, "ranged", coll)
@@ -519,11 +565,12 @@ func (e *Exec) execRange(s *ast.RangeStmt, label string, st *State, ctx *Ctx, k 
 		}
 		e.checkInvs(nx, li, "step", ctx)
 	}
-	lctx := ctx.with(label, func(st2 *State) { k(st2) }, endIter)
+	lctx := ctx.with(label, func(st2 *State) { popErrBase(st2); k(st2) }, endIter)
 	e.execBlock(s.Body.List, body, lctx, endIter)
 
 	// 3b. loop exit
 	exit := head.clone()
+	popErrBase(exit)
 	exit.path = append(exit.path, fmt.Sprintf("L%sx", sanitize(li.key)))
 	switch kind {
 	case rkMap:
@@ -564,6 +611,7 @@ func (e *Exec) execFor(s *ast.ForStmt, label string, st *State, ctx *Ctx, k func
 		init.ghosts["allocTop@loop"] = init.top
 		e.checkInvs(init, li, "init", ctx)
 		head := st.clone()
+		pushErrBase(head)
 		e.havoc(head, vars, fields)
 		if iv, up := e.countingVar(s, vars, info); iv != nil {
 			// syntactic fact about counting loops: the counter never moves back past its initial value
@@ -613,10 +661,12 @@ func (e *Exec) execFor(s *ast.ForStmt, label string, st *State, ctx *Ctx, k func
 			// a for-loop without a measure: termination is not established
 			e.emit(head, "term", fmt.Sprintf("loop[%s].decreases", li.key), "false", []string{"C08"}, li.pos, "for-loop has no decreases clause")
 		}
-		lctx := ctx.with(label, func(st2 *State) { k(st2) }, endIter)
+		lctx := ctx.with(label, func(st2 *State) { popErrBase(st2); k(st2) }, endIter)
 		e.execBlock(s.Body.List, body, lctx, endIter)
 		if s.Cond != nil {
-			k(e.branch(head, "(not "+cond+")", fmt.Sprintf("L%sx", sanitize(li.key))))
+			ex := e.branch(head, "(not "+cond+")", fmt.Sprintf("L%sx", sanitize(li.key)))
+			popErrBase(ex)
+			k(ex)
 		}
 	}
 	if s.Init != nil {
